@@ -39,6 +39,12 @@ type Mismatch struct {
 	Variant string `json:"variant,omitempty"`
 	Seed    uint64 `json:"seed,omitempty"`
 	Index   int    `json:"index"`
+	// the same failure on a smaller case (engine stream: greedy one-step reductions that keep the projection different)
+	Shrunk      string `json:"shrunk_case,omitempty"`
+	ShrunkImpl  string `json:"shrunk_impl,omitempty"`
+	ShrunkModel string `json:"shrunk_model,omitempty"`
+	ShrunkWhat  string `json:"shrunk_what,omitempty"`
+	ShrunkSteps int    `json:"shrunk_steps,omitempty"`
 }
 
 func newSummary(stream string, seed uint64) *Summary {
@@ -94,7 +100,7 @@ func main() {
 	prop := flag.String("prop", "", "property the run is for (selects direct oracles)")
 	replay := flag.String("replay", "", "replay file written by ./check")
 	flag.Parse()
-	_ = prop
+	shrinkProp = *prop
 	if *replay != "" {
 		os.Exit(doReplay(*replay, *driver))
 	}
